@@ -109,6 +109,14 @@ if clean and not only:
         subprocess.run(['rm', '-rf', out_dir])
 
 head = subprocess.run(['git', '-C', '/repo', 'rev-parse', '--short', 'HEAD'], capture_output=True, text=True).stdout.strip()
+if not cleanres:
+    # --no-clean / --only: keep the unchanged-tree results of the previous sweep at the same /repo HEAD
+    try:
+        prev = json.load(open(os.path.join(ROOT, 'sensitivity.json')))
+        if prev.get('repo_head') == head:
+            cleanres = prev.get('unchanged_tree', [])
+    except Exception:
+        pass
 json.dump({'repo_head': head, 'changes': results, 'unchanged_tree': cleanres}, open(os.path.join(ROOT, 'sensitivity.json'), 'w'), indent=1)
 with open(os.path.join(ROOT, 'sensitivity.md'), 'w') as f:
     f.write(f'Sensitivity sweep at /repo {head} (quick tier, VERIF_SEED=1)\n\n')
